@@ -41,10 +41,11 @@ func blockingKind(in ssa.Instruction) string {
 }
 
 // lockRules evaluates the lock-discipline rule forms on the functions in scope.
-//   <pfx>.reacquire  no acquisition of a lock that may already be held (Go mutexes are not reentrant)
-//   <pfx>.balanced   every exit leaves the locks as on entry; joins have equal lock states
-//   <pfx>.order      the lock-order graph is acyclic
-//   <pfx>.noblock    nothing that can block indefinitely runs while a lock is held
+//
+//	<pfx>.reacquire  no acquisition of a lock that may already be held (Go mutexes are not reentrant)
+//	<pfx>.balanced   every exit leaves the locks as on entry; joins have equal lock states
+//	<pfx>.order      the lock-order graph is acyclic
+//	<pfx>.noblock    nothing that can block indefinitely runs while a lock is held
 func lockRules(c *Ctx, p *Prog, lf *LockFacts, scope map[*ssa.Function]bool, pfx string) (acquires int) {
 	issuesAt := map[ssa.Instruction][]LockIssue{}
 	issuesFn := map[*ssa.Function][]LockIssue{}
